@@ -1,6 +1,6 @@
 (* Executor ops for Model/Packet.v and Model/Create.v (C01: the hdr ops, C02: the pay ops).
    goexec/packet.go registers the same names over the real library and prints the same text. *)
-From Gots Require Import Base.Prelude Exec.ExecBase Model.Packet Model.Create.
+From Gots Require Import Base.Prelude Exec.ExecBase Model.Packet Model.Create Spec.Iso13818Hdr.
 Import Packet.
 
 (* ---- observations ---- *)
@@ -83,6 +83,34 @@ Definition inc_which (k : N) (q : bytes) : bytes :=
   if k =? 0 then IncContinuityCounter q else if k =? 1 then ZeroContinuityCounter q else
   if k =? 2 then IncrementCC q else if k =? 3 then ZeroCC q else q.
 
+(* ---- ser.pkt: logical packet on the wire -> Spec serialiser (used by the C02 generator) ---- *)
+Definition optb_of_val (v : val) : option (option bytes) :=
+  match v with VL [] => Some None | VL [VB b] => Some (Some b) | _ => None end.
+Definition optn_of_val (v : val) : option (option N) :=
+  match v with VL [] => Some None | VL [VI z] => Some (Some (zN z)) | _ => None end.
+Definition afield_of_val (v : val) : option Iso.afield :=
+  match v with
+  | VL [] => Some Iso.NoAF
+  | VL [VL []] => Some Iso.EmptyAF
+  | VL [VL [VI t; a; b; c; d; e; VB st]] =>
+    match optb_of_val a, optb_of_val b, optn_of_val c, optb_of_val d, optb_of_val e with
+    | Some a', Some b', Some c', Some d', Some e' => Some (Iso.AF (Iso.mkLaf (zN t) a' b' c' d' e') st)
+    | _, _, _, _, _ => None
+    end
+  | _ => None
+  end.
+Definition ser_pkt_op (a : list val) : val :=
+  match a with
+  | [VL [VI s; VI te; VI pu; VI tp; VI pid; VI tsc; VI afc; VI cc]; f; VB pay] =>
+    match afield_of_val f with
+    | Some f' =>
+      let l := Iso.mkLpkt (Iso.mkHdr (zN s) (zN te) (zN pu) (zN tp) (zN pid) (zN tsc) (zN afc) (zN cc)) f' pay in
+      VL [VB (Iso.ser_pkt l); vbool (Iso.wf_lpktb l)]
+    | None => vbad
+    end
+  | _ => vbad
+  end.
+
 Open Scope string_scope.
 Definition ops : list op := [
   (* ---------------- C01 ---------------- *)
@@ -150,6 +178,7 @@ Definition ops : list op := [
       sweep (pairs bytes256 bytes256) (fun x => upd (upd p 0 (fst x)) 3 (snd x)) (fun _ q => q)
             rd_b3 | _ => vbad end);
   (* ---------------- C02 ---------------- *)
+  ("ser.pkt", ser_pkt_op);
   (* Payload (fn, view), Payload (method, copy), Header, PESHeader, packet unchanged, method result is a copy *)
   ("pay.view", fun a => match a with [VB p] =>
       VL [vres VB (Payload_fn p); vres VB (Payload_m p); vres VB (Header p); vres VB (PESHeader p); one; one]
